@@ -301,6 +301,47 @@ func harnesses(r *fw.Run) []fw.HarnessSpec {
 		})
 	}
 
+	// a subtree with several different children that is reached more than once: twice from one parent, from a parent
+	// and from inside an earlier sibling's subtree, from two parents - the positions in which the reordering passes meet
+	// a cell again before / after its parent placed it
+	add("repeated-subtrees", 0, func(c *enum.Ctx) {
+		leaf := func(tag byte) *cell.Cell { return cell.MustNew([]byte{tag, 0x5a}, 16, nil, false) }
+		A, B, C := leaf(0xa1), leaf(0xb2), leaf(0xc3)
+		kids := [][]*cell.Cell{{A, B}, {B, A}, {A, B, C}, {C, A, B}, {A, A, B}, {A, B, A}, {A, B, C, A}}[c.ChooseFree(7)]
+		X := cell.MustNew([]byte{0x77}, 8, kids, false)
+		node := func(tag byte, refs ...*cell.Cell) *cell.Cell { return cell.MustNew([]byte{tag}, 8, refs, false) }
+		place := c.ChooseFree(10)
+		var root *cell.Cell
+		switch place {
+		case 0:
+			root = node(1, X, X)
+		case 1:
+			root = node(1, X, leaf(0xd4), X)
+		case 2:
+			root = node(1, node(2, X), X)
+		case 3:
+			root = node(1, X, node(2, X))
+		case 4:
+			root = node(1, node(2, X), node(3, X))
+		case 5:
+			root = node(1, node(2, X, X))
+		case 6:
+			root = node(1, node(2, node(3, X)), X)
+		case 7:
+			root = node(1, A, X, node(2, X))
+		case 8:
+			root = node(1, node(2, B, X), node(3, X, A), X)
+		case 9:
+			root = node(1, X, X, X, X)
+		}
+		oi := c.ChooseFree(8)
+		h := root.ReprHash()
+		c.Case(append(h[:], byte(oi)), true)
+		c.Sample(map[string]any{"dag": root.Describe(), "options": fmt.Sprintf("%+v", combo(oi))})
+		c.Label("repeated subtree: children %d placement %d opts=%+v", len(kids), place, combo(oi))
+		dagRoundTrip(c, root, oi, "repeated")
+	})
+
 	add("single-cell-all-lengths", 0, func(c *enum.Ctx) {
 		n := c.ChooseFree(1024)
 		p := c.ChooseFree(3)
